@@ -182,7 +182,7 @@ def apply_prog(sess, prog, inproc):
 def shard(idx, n, tier, seed, count):
     ev = Ev()
     scratch = common.Scratch("vf-c02")
-    opts = {"exclude": common.open_features(ID)}
+    opts = {"exclude": common.open_features(ID), "nested_args": True}
     try:
         v = common.hyp_drive(case_strategy(opts), lambda c: check_case(c, ev, scratch), seed * 1000 + 200 + idx, count, ev)
     finally:
